@@ -85,6 +85,7 @@ class ContentsFile(contentsSet):
     def _iter_contents(self):
         self.clear()
         for line in self._get_fd():
+            line = line.rstrip("\n")
             if not line:
                 continue
             s = line.split(" ")
